@@ -6,6 +6,7 @@ import (
 	"runtime"
 	"strings"
 	"sync"
+	"sync/atomic"
 	"testing"
 	"time"
 
@@ -45,14 +46,22 @@ var terminators = []struct{ name, src string }{
 }
 
 type TimeoutCase struct {
-	Scripts    []int `json:"scripts"`     // indices into spinners
-	Finishers  []int `json:"finishers"`   // indices into terminators (run under a long-lived parent context)
-	DeadlineMs int   `json:"deadline_ms"` // 0 = already expired
-	CancelMs   int   `json:"cancel_ms"`   // >0: cancel instead of deadline
-	ViaWalk    bool  `json:"via_walk,omitempty"`
-	AsGuard    bool  `json:"as_guard,omitempty"`
-	ErrBranch  bool  `json:"err_branches,omitempty"`
+	Scripts    []int  `json:"scripts"`     // indices into spinners
+	Finishers  []int  `json:"finishers"`   // indices into terminators (run under a long-lived parent context)
+	DeadlineMs int    `json:"deadline_ms"` // 0 = already expired
+	CancelMs   int    `json:"cancel_ms"`   // >0: cancel instead of deadline
+	ViaWalk    bool   `json:"via_walk,omitempty"`
+	AsGuard    bool   `json:"as_guard,omitempty"`
+	ErrBranch  bool   `json:"err_branches,omitempty"`
 	ErrNode    string `json:"err_node,omitempty"`
+	// Shape of the context when CancelMs > 0: "" a plain cancellable
+	// context; "deadline+cancel" one that also has a (far) deadline of
+	// its own; "parent-cancel" a child with a far deadline whose parent
+	// is cancelled; "pre-cancelled" cancelled before the execution starts
+	// (with a far deadline).  When CancelMs == 0: "" or "parent-deadline"
+	// (the deadline is the parent's, the context itself is only
+	// cancellable).
+	Shape string `json:"shape,omitempty"`
 }
 
 func genTimeout(t *rapid.T) TimeoutCase {
@@ -67,6 +76,9 @@ func genTimeout(t *rapid.T) TimeoutCase {
 	c.DeadlineMs = rapid.SampledFrom([]int{0, 1, 1, 5, 5, 20, 20, 100, 300}).Draw(t, "deadline")
 	if rapid.IntRange(0, 3).Draw(t, "cancel") == 0 {
 		c.CancelMs = rapid.SampledFrom([]int{1, 3, 10, 40}).Draw(t, "cancelms")
+		c.Shape = rapid.SampledFrom([]string{"", "deadline+cancel", "parent-cancel", "pre-cancelled"}).Draw(t, "shape")
+	} else if c.DeadlineMs > 0 && rapid.IntRange(0, 3).Draw(t, "pd") == 0 {
+		c.Shape = "parent-deadline"
 	}
 	if rapid.IntRange(0, 2).Draw(t, "walk") == 0 {
 		c.ViaWalk = true
@@ -77,7 +89,14 @@ func genTimeout(t *rapid.T) TimeoutCase {
 	return c
 }
 
+// sawLate: a script has already been seen to overrun in this process;
+// shrinking need not wait as long for the next one.
+var sawLate atomic.Bool
+
 func slack() time.Duration {
+	if sawLate.Load() {
+		return 1500 * time.Millisecond
+	}
 	if ev.Tier() == "thorough" {
 		return 15 * time.Second
 	}
@@ -127,9 +146,30 @@ func checkTimeout(c TimeoutCase) (v ev.Verdict) {
 			var ctx context.Context
 			var cancel context.CancelFunc
 			<-start
+			far := 20 * time.Second
 			if c.CancelMs > 0 {
-				ctx, cancel = context.WithCancel(context.Background())
-				time.AfterFunc(limit, cancel)
+				switch c.Shape {
+				case "deadline+cancel":
+					ctx, cancel = context.WithTimeout(context.Background(), far)
+					time.AfterFunc(limit, cancel)
+				case "parent-cancel":
+					parent, cancelParent := context.WithCancel(context.Background())
+					var cancelChild context.CancelFunc
+					ctx, cancelChild = context.WithTimeout(parent, far)
+					cancel = func() { cancelParent(); cancelChild() }
+					time.AfterFunc(limit, cancelParent)
+				case "pre-cancelled":
+					ctx, cancel = context.WithTimeout(context.Background(), far)
+					cancel()
+				default:
+					ctx, cancel = context.WithCancel(context.Background())
+					time.AfterFunc(limit, cancel)
+				}
+			} else if c.Shape == "parent-deadline" {
+				parent, cancelParent := context.WithTimeout(context.Background(), limit)
+				var cancelChild context.CancelFunc
+				ctx, cancelChild = context.WithCancel(parent)
+				cancel = func() { cancelChild(); cancelParent() }
 			} else if c.DeadlineMs == 0 {
 				ctx, cancel = context.WithDeadline(context.Background(), time.Now().Add(-time.Second))
 			} else {
@@ -190,7 +230,8 @@ func checkTimeout(c TimeoutCase) (v ev.Verdict) {
 			case <-done:
 				r.took = time.Since(t0)
 			case <-time.After(limit + slack()):
-				r.bad = fmt.Sprintf("script %q still running %v after its %v limit (cancel=%v)", spinners[si].name, slack(), limit, c.CancelMs > 0)
+				r.bad = fmt.Sprintf("script %q still running %v after its %v limit (cancel=%v context=%q)", spinners[si].name, slack(), limit, c.CancelMs > 0, c.Shape)
+				sawLate.Store(true)
 				r.took = time.Since(t0)
 			}
 			results[i] = r
@@ -243,6 +284,9 @@ func checkTimeout(c TimeoutCase) (v ev.Verdict) {
 	v.NonTrivial = true
 	v.Class(fmt.Sprintf("deadline:%dms", c.DeadlineMs))
 	v.Class(fmt.Sprintf("concurrency:%d", len(c.Scripts)))
+	if c.Shape != "" {
+		v.Class("context:" + c.Shape)
+	}
 	if c.CancelMs > 0 {
 		v.Class("cancelled")
 	}
